@@ -579,11 +579,16 @@ fn mutation_histories(ctx: &Ctx) {
         ("write to the other operand", ["a[0] = 9", "a[0][0] = 9", "a.k[0] = 9"]),
         ("range write to the other operand", ["a[1:3] = [2, 3]", "a[0][0:1] = [1]", "a.k[0:1] = [1]"]),
     ];
-    let cmp = "print([a == b, a != b, b == a])\n";
     let mut cases = vec![];
     let n = writes.len();
+    // One comparison per step (the same pair, in the same order, with nothing
+    // else compared in between) and three comparisons per step.
+    for cmp in ["print(a == b)\n", "print(a != b)\n", "print(b == a)\n", "print([a == b, a != b, b == a])\n"] {
     for (si, (setup, sname)) in setups.iter().enumerate() {
         for len in 1..=3usize {
+            if len == 3 && cmp.len() < 20 && cmp != "print(a == b)\n" {
+                continue;
+            }
             for code in 0..n.pow(len as u32) {
                 let mut src = format!("{setup}{cmp}");
                 let mut c = code;
@@ -609,7 +614,8 @@ fn mutation_histories(ctx: &Ctx) {
             }
         }
     }
-    ctx.judge_all(cases, Via::Cli, None);
+    }
+    ctx.judge_all(cases, Via::Fast, None);
 }
 
 pub fn run(ctx: &Ctx) {
